@@ -437,7 +437,7 @@ fn emit(out: &mut Out, id: u64, c: &Cfg, fam: &str, stream: &str, thorough: bool
     let res = timed_fit(&c, if thorough { 120 } else { 30 });
     let replay_ok = n <= (if stream == "shrink" { 130 } else if thorough { 60 } else { 36 });
     // sizes for which the positive semi-definiteness certificate is evaluated (must agree with C13/Corr.v psd_limit)
-    let psd_limit = 64usize;
+    let psd_limit = 130usize;
     let nt = if c.kind == Kind::OneClass { (c.par1 * n as f64) as u64 } else { 0 };
     let head = format!(
         "{{| c_id := {}; c_kind := {}; c_kernel := {}; c_kp1 := {}; c_kp2 := {}; c_X := {}; c_yb := {}; c_yr := {}; c_par1 := {}; c_par2 := {}; c_eps := {}; c_shrink := {}; c_nt := {}; ",
